@@ -34,16 +34,20 @@ fn exec_inner(verb: &str, items: &[Sexp], o: &mut Oracle) -> Option<String> {
     match verb {
         "w" | "rt" => {
             let (Some(proto), Some(buf), Some(api)) = (a(1).and_then(Proto::of), a(2).and_then(BufK::of), a(3)) else { return "bad-request".into() };
-            let api = match api { "b" => StrApi::Bytes, "v" => StrApi::Vec, "f" => StrApi::FastStr, _ => return "bad-request".into() };
+            let Some(api) = StrApi::of(api) else { return "bad-request".into() };
+            if api == StrApi::Raw && proto == Proto::Cmp { return "bad-request".into() }      // the raw API pair is a binary-family idiom
             let Some(vals) = vals_of(&items[4..]) else { return "bad-request".into() };
             let w = match write_all(proto, buf, api, &vals) { Ok(w) => w, Err(e) => return err_class(&e).into() };
-            if !w.note.is_empty() { o.fail("C11", format!("unchecked writer: {}", w.note.trim())); }
+            if !w.note.is_empty() { o.fail("C04,C11", format!("unchecked writer: {}", w.note.trim())); }
             if verb == "w" {
                 return format!("ok {} {} z={}", hex(&w.bytes), csv(&w.per_op), w.zero_copy_len);
             }
             // round trip: one reader instance reads every value back
             let (size, _) = size_of(proto, &vals);
             if size != w.bytes.len() { o.fail("C04", format!("size {} != written {}", size, w.bytes.len())); }
+            // ... and the size the writing protocol itself reports (its own length machine, its zero-copy flag, this string API)
+            let (wsize, _) = size_of_writer(proto, buf.zc(), api, &vals);
+            if wsize != w.bytes.len() { o.fail("C04", format!("size reported by the {} writer (zero_copy={}) {} != written {}", proto.name(), buf.zc(), wsize, w.bytes.len())); }
             let script: Vec<ReadStep> = vals.iter().map(|v| ReadStep::Read(v.tt())).collect();
             let r = read_script(proto, &w.bytes, &script);
             let expect: Vec<String> = vals.iter().map(|v| if proto == Proto::Cmp { v.norm_compact().sexp() } else { v.sexp() }).collect();
@@ -55,6 +59,12 @@ fn exec_inner(verb: &str, items: &[Sexp], o: &mut Oracle) -> Option<String> {
             let Some(proto) = a(1).and_then(Proto::of) else { return "bad-request".into() };
             let Some(vals) = vals_of(&items[2..]) else { return "bad-request".into() };
             let (t, per) = size_of(proto, &vals);
+            format!("ok {} {}", t, csv(&per))
+        }
+        "lz" => {
+            let (Some(proto), Some(zc), Some(api)) = (a(1).and_then(Proto::of), a(2), a(3).and_then(StrApi::of)) else { return "bad-request".into() };
+            let Some(vals) = vals_of(&items[4..]) else { return "bad-request".into() };
+            let (t, per) = size_of_writer(proto, zc == "1", api, &vals);
             format!("ok {} {}", t, csv(&per))
         }
         "r" => {
@@ -93,7 +103,7 @@ pub fn gen(stream: &str, tier: &str, seed: u64, out: &mut dyn Write) -> bool {
     let thorough = tier == "thorough";
     let n = |q: usize, t: usize| if thorough { t } else { q };
     let protos = [Proto::Bin, Proto::Le, Proto::Cmp, Proto::UBin];
-    let bufs = [BufK::Bm, BufK::Lb0, BufK::Lb1];
+    let bufs = [BufK::Bm, BufK::Lb0, BufK::Lb1, BufK::Bm1];
     match stream {
         "C01" | "C04" => {
             // fixed boundary cases first (do not depend on the seed)
@@ -107,16 +117,34 @@ pub fn gen(stream: &str, tier: &str, seed: u64, out: &mut dyn Write) -> bool {
             for k in [0usize, 1, 14, 15, 16, 127, 128] { fixed.push(vec![Val::List(TT::I8, (0..k).map(|i| Val::I8(i as i8)).collect())]); }
             for k in [4095usize, 4096, 4097] { fixed.push(vec![Val::Struct(vec![(1, Val::Bin(vec![0x61; k])), (2, Val::I32(5))])]); }
             for d in [1usize, 8, 40, 80] { fixed.push(vec![gen::ladder(d, 0)]); fixed.push(vec![gen::ladder(d, 1)]); }
+            // densest encodings at the very end of the buffer: containers whose elements have their shortest encoding
+            // (empty map / list / set / struct / string, bool, i8), alone and as the last field of a struct
+            for k in [1usize, 2, 3, 20] {
+                let minimal = [Val::Map(TT::I32, TT::Binary, vec![]), Val::List(TT::Bool, vec![]), Val::Set(TT::I64, vec![]), Val::Struct(vec![]), Val::Bin(vec![]), Val::Bool(true), Val::I8(0), Val::I16(0)];
+                for m in &minimal {
+                    let l = Val::List(m.tt(), vec![m.clone(); k]);
+                    fixed.push(vec![l.clone()]);
+                    fixed.push(vec![Val::Struct(vec![(1, Val::I32(7)), (2, l.clone())])]);
+                    fixed.push(vec![Val::Map(TT::I8, m.tt(), (0..k).map(|i| (Val::I8(i as i8), m.clone())).collect())]);
+                    if k <= 2 { fixed.push(vec![Val::Map(m.tt(), m.tt(), vec![(m.clone(), m.clone())])]); }
+                }
+            }
             let mut emit = |vals: &[Val], r: &mut Rng, all: bool| {
                 let vs: Vec<String> = vals.iter().map(|v| v.sexp()).collect();
                 let vs = vs.join(" ");
                 let big = vs.len() > 8000;       // a payload around the zero-copy threshold: every string API on every buffer
                 for p in protos {
-                    if stream == "C04" { if p != Proto::UBin { let _ = writeln!(out, "l {} {}", p.name(), vs); } }
+                    let apis: &[&str] = if p == Proto::Cmp { &["b", "v", "f", "s"] } else { &["b", "v", "f", "r", "s"] };
+                    if stream == "C04" {
+                        if p != Proto::UBin { let _ = writeln!(out, "l {} {}", p.name(), vs); }
+                        // the size as each writer itself reports it: own length machine, either zero-copy flag, every string API
+                        if big || all { for zc in ["0", "1"] { for api in apis { let _ = writeln!(out, "lz {} {} {} {}", p.name(), zc, api, vs); } } }
+                        else { let _ = writeln!(out, "lz {} {} {} {}", p.name(), r.pick(&["0", "1"]), r.pick(apis), vs); }
+                    }
                     for b in bufs {
                         if !all && !r.chance(1, 2) { continue; }
-                        if big { for api in ["b", "v", "f"] { let _ = writeln!(out, "rt {} {} {} {}", p.name(), b.name(), api, vs); } continue; }
-                        let api = *r.pick(&["b", "v", "f"]);
+                        if big { for api in apis { let _ = writeln!(out, "rt {} {} {} {}", p.name(), b.name(), api, vs); } continue; }
+                        let api = *r.pick(apis);
                         let _ = writeln!(out, "rt {} {} {} {}", p.name(), b.name(), api, vs);
                         if b == BufK::Bm && p != Proto::UBin { let _ = writeln!(out, "w {} {} {} {}", p.name(), b.name(), api, vs); }
                     }
